@@ -52,6 +52,7 @@ def _case(draw):
         if spec['raw'] and spec['raw']['backend'] == 'cbin':
             spec['raw']['chunk'] = max(spec['raw']['chunk'], int(ceil(spec['n_raw'] / 18.0)))
         return {'k': 'single', 'spec': spec, 'factor': factor, 'ncc': draw(st.integers(2, 12)),
+                'second_factor': draw(st.sampled_from([None, None, 1, 2.34375e-06, 3])),
                 'reexport': draw(st.none() | st.lists(D._curation_op, min_size=1, max_size=3))}
     mc = draw(G.merge_case(exclude_f13=True))
     for p in mc['probes']:
@@ -62,6 +63,11 @@ def _case(draw):
 
 def _large_cases(th):
     yield {'k': 'single', 'spec': D.large_curated_spec(), 'factor': 2.5, 'ncc': 3, 'large': True}
+    # spike depths across the 50 000-spike batches of get_depths
+    yield {'k': 'single', 'spec': D.large_spec(50001, seed=8), 'factor': 1, 'ncc': 4, 'large': True}
+    if th:
+        yield {'k': 'single', 'spec': D.large_spec(100003, seed=9), 'factor': 2, 'ncc': 4,
+               'large': True}
     if th:
         yield {'k': 'single', 'spec': D.large_curated_spec(nt=257, ns=1200, seed=11), 'factor': 1,
                'ncc': 4, 'large': True}
@@ -279,6 +285,20 @@ def check(case):
             out = d / 'alf'
             om = must_return('convert', creator.convert, out, ampfactor=f)
             check_export(S, m, out, f, case['ncc'], chmaps, info)
+            if case.get('second_factor') is not None:
+                # the same converter object converts again, into another directory, with another
+                # unit factor
+                f2 = case['second_factor']
+                out2 = d / 'alf_second'
+                om2 = must_return('convert (second, same converter)', creator.convert, out2,
+                                  ampfactor=f2)
+                try:
+                    check_export(S, m, out2, f2, case['ncc'], chmaps, info)
+                finally:
+                    try:
+                        om2.close()
+                    except Exception:
+                        pass
             if case.get('reexport'):
                 # history: curate again, reload, export again into the same directory (force)
                 new = D.apply_curation([int(x) for x in S.sc], case['reexport'])
